@@ -1,26 +1,39 @@
 (* C16 - sending routes a packet to local handlers or to the link, as addressed. *)
 Require Import RP.Model.Base RP.Model.Packet RP.Model.Events RP.Model.Protocol RP.Lemmas.Registry RP.Lemmas.ProtocolLemmas.
 
-Definition all_log (t: table) (p: packet) : list logent := map (fun kh => (fst kh, h_label (snd kh), p)) t.
-Definition all_sends (t: table) : list packet := concat (map (fun kh => h_sends (snd kh)) t).
 Definition answer (a: N) : out unit perr := if a =? 0 then Val tt else Fail (PInterface a).
 
+(* dispatch_log own t p true = for every registered handler, in key order, its entry for p (followed by the nested
+   deliveries of what that handler itself sent to the own address); dispatch_sent own t true = what the handlers transmit *)
 Theorem C16_send : forall own t p i,
   (* own address, not the broadcast address: every local handler once, nothing of it on the link, Ok *)
-  (p_addr p = own -> own <> BROADCAST -> send_packet own t p i = (Val tt, all_log t p, isend_all i (all_sends t))) /\
+  (p_addr p = own -> own <> BROADCAST -> send_packet own t p i = (Val tt, dispatch_log own t p true, isend_all i (dispatch_sent own t true))) /\
   (* a device whose own address is the broadcast address also transmits it; the link answer is returned *)
   (p_addr p = own -> own = BROADCAST ->
-     send_packet own t p i = (answer (fst (isend (isend_all i (all_sends t)) p)), all_log t p, snd (isend (isend_all i (all_sends t)) p))) /\
+     send_packet own t p i = (answer (fst (isend (isend_all i (dispatch_sent own t true)) p)), dispatch_log own t p true, snd (isend (isend_all i (dispatch_sent own t true)) p))) /\
   (* any other destination: transmitted exactly once, unmodified, no local handler; the link answer is returned *)
   (p_addr p <> own -> send_packet own t p i = (answer (fst (isend i p)), [], snd (isend i p))).
 Proof.
-  intros own t p i. unfold send_packet, answer, all_log, all_sends. repeat split.
+  intros own t p i. unfold send_packet, answer. repeat split.
   - intros Ha Hb. assert (E1: (p_addr p =? own) = true) by lia. assert (E2: (own =? BROADCAST) = false) by lia.
-    rewrite E1, E2, handle_packet_spec, invoked_owned. reflexivity.
+    rewrite E1, E2, handle_packet_spec. reflexivity.
   - intros Ha Hb. assert (E1: (p_addr p =? own) = true) by lia. assert (E2: (own =? BROADCAST) = true) by lia.
-    rewrite E1, E2, handle_packet_spec, invoked_owned. cbn [andb negb]. destruct (isend _ p) as [a i2]. reflexivity.
+    rewrite E1, E2, handle_packet_spec. cbn [andb negb]. destruct (isend _ p) as [a i2]. reflexivity.
   - intros Ha. assert (E1: (p_addr p =? own) = false) by lia. rewrite E1. cbn [andb]. destruct (isend i p) as [a i2]. reflexivity.
 Qed.
+
+(* a top-level send to the own address reaches EVERY registered handler exactly once (the first entry of each
+   handler's block), in key order: with no re-entrant sends the log is exactly that *)
+Theorem C16_every_handler_once : forall own t p, quiet own t = true ->
+  dispatch_log own t p true = map (fun kh => (fst kh, h_label (snd kh), p)) t /\ dispatch_sent own t true = concat (map (fun kh => h_sends (snd kh)) t).
+Proof. intros own t p Hq. destruct (dispatch_quiet own t p true Hq) as [H1 H2]. rewrite invoked_owned in H1, H2. split; assumption. Qed.
+
+(* the same routing rule for the sends a handler makes from inside a dispatch: a packet to the own address is delivered once to
+   every registered handler (leaf_log) and transmitted only when the own address is the broadcast address; any other packet is
+   transmitted once and reaches no local handler *)
+Theorem C16_nested : forall own t qs log i,
+  fold_left (hsend own t) qs (log, i) = (log ++ nested_log own t qs, isend_all i (filter (transmitted own) qs)).
+Proof. exact hbody_go. Qed.
 
 Theorem C16_transmit : forall i p, i_sent (snd (isend i p)) = i_sent i ++ [p] /\ i_gets (snd (isend i p)) = i_gets i.
 Proof. intros i p. unfold isend. destruct (i_sends i); split; reflexivity. Qed.
@@ -29,5 +42,8 @@ Example C16_nonvacuous :
   let t := [(0, mkH 10 false []); (2, mkH 12 true [])] in
   send_packet 65535 t (mkP false 65535 [1]) (mkI [] [41] []) = (Fail (PInterface 41), [(0, 10, mkP false 65535 [1]); (2, 12, mkP false 65535 [1])], mkI [] [] [mkP false 65535 [1]]) /\
   send_packet 7 t (mkP false 7 [1]) (mkI [] [41] []) = (Val tt, [(0, 10, mkP false 7 [1]); (2, 12, mkP false 7 [1])], mkI [] [41] []) /\
-  send_packet 7 t (mkP true 8 [1]) (mkI [] [] []) = (Val tt, [], mkI [] [] [mkP true 8 [1]]).
+  send_packet 7 t (mkP true 8 [1]) (mkI [] [] []) = (Val tt, [], mkI [] [] [mkP true 8 [1]]) /\
+  (* a handler that itself sends to the own address: the nested packet reaches both handlers once and stays off the link *)
+  send_packet 7 [(0, mkH 10 false [mkP false 7 [9]]); (2, mkH 12 true [])] (mkP false 7 [1]) (mkI [] [] []) =
+    (Val tt, [(0, 10, mkP false 7 [1]); (0, 10, mkP false 7 [9]); (2, 12, mkP false 7 [9]); (2, 12, mkP false 7 [1])], mkI [] [] []).
 Proof. repeat split; reflexivity. Qed.
